@@ -45,23 +45,91 @@ def check_reader_agreement(chk) -> None:
     m2 = [n for n in ast.walk(b.node) if isinstance(n, ast.Assign) and norm(n.targets[0]) == "current_model" and isinstance(n.value, ast.Call)]
     ok = any("line[10:14]" in norm(n.value) for n in m2)
     chk.expect(ok, "pdb-slices-v2", b.where, "parser_v2: MODEL serial from columns 11-14", "parser_v2 does not read the MODEL serial from line[10:14]", K(b, "column:model"))
-    # record filter of parser_v2: exactly ATOM and HETATM by the 6-column record name
-    rt = astq.first_assign(b.node, "record_type") if astq.assignments(b.node, "record_type") else None
-    loops = [l for l in b.node.body if isinstance(l, ast.For) and norm(l.iter) == "lines"]
-    ok = False
-    if loops:
-        body = loops[0].body
-        txt = [norm(s) for s in body[:3]]
-        ok = txt[0] == "record_type = line[:6].strip()" and any(isinstance(s, ast.If) and norm(s.test) == "record_type not in ['ATOM', 'HETATM']" and isinstance(s.body[-1], ast.Continue) for s in body)
-        conts = [s for s in body if isinstance(s, ast.If) and s.body and isinstance(s.body[-1], ast.Continue)]
-        ok = ok and len(conts) == 2 and not any(isinstance(s, ast.If) and "startswith" in norm(s.test) for s in body)
-    chk.expect(ok, "pdb-record-filter", b.where, "parser_v2 keeps exactly the lines whose record name (columns 1-6) is ATOM or HETATM", "parser_v2's line filter is not `record_type = line[:6].strip()` in {ATOM, HETATM} (plus MODEL handling): some atom lines are dropped or foreign lines kept", K(b, "record-filter"))
+    # record filter of parser_v2: which classes of line yield an atom record - the loop body evaluated on one representative per class
+    _record_filter(chk, b, sp)
     # null markers in the table reader
     c = repo.func(P2, "parse_cif_atoms")
     chk.note_function(c)
     nm = [n for n in ast.walk(c.node) if isinstance(n, ast.Compare) and any(isinstance(x, ast.Constant) and x.value in ("?", ".") for x in ast.walk(n))]
     ok = len(nm) == 1 and {x.value for x in ast.walk(nm[0]) if isinstance(x, ast.Constant)} == {"?", "."}
     chk.expect(ok, "null-markers-v2", c.where, "parser_v2 maps both mmCIF null markers to None", "parser_v2 does not treat both '?' and '.' as missing", K(c, "nulls"))
+
+
+def pdb_line(sp: Dict[str, Any], record: str, fields: Dict[str, str]) -> str:
+    """An 80-column line with each given field right-justified in its columns (wwPDB table)."""
+    buf = [" "] * 80
+    for k, v in dict(fields, record_type=record).items():
+        lo, hi = sp["atom"][k]
+        txt = v.ljust(hi - lo) if k in ("record_type",) else v.rjust(hi - lo)
+        buf[lo:hi] = list(txt[: hi - lo])
+    return "".join(buf)
+
+
+def _record_filter(chk, b, sp) -> None:
+    from sa.blockeval import BlockEval, Unknown
+
+    repo = chk.repo
+    loops = [l for l in b.node.body if isinstance(l, ast.For) and norm(l.iter) == "lines" and isinstance(l.target, ast.Name)]
+    if len(loops) != 1:
+        chk.error("pdb-record-filter", b.where, "line loop of parse_pdb_atoms not found")
+        return
+    loop = loops[0]
+    var = loop.target.id
+    atom_fields = {"serial": "  417", "name": " CA ", "resName": "  G", "chainID": "B", "resSeq": " -12", "iCode": "C", "x": "  11.250", "y": " -22.500", "z": "  33.125", "occupancy": "  0.50", "tempFactor": " 42.17", "element": " C", "charge": "1-", "altLoc": "A"}
+    big = dict(atom_fields, serial="12345")
+    classes = [
+        ("ATOM line", pdb_line(sp, "ATOM", atom_fields), True),
+        ("HETATM line", pdb_line(sp, "HETATM", atom_fields), True),
+        ("HETATM line whose 5-digit serial touches the record name", pdb_line(sp, "HETATM", big), True),
+        ("ATOM line with a 5-digit serial", pdb_line(sp, "ATOM", big), True),
+        ("ANISOU line", pdb_line(sp, "ANISOU", atom_fields), False),
+        ("TER line", "TER     418        G B -12C".ljust(80), False),
+        ("REMARK line", "REMARK 465 ATOM  MISSING".ljust(80), False),
+        ("MODEL line", "MODEL        2".ljust(80), False),
+        ("ENDMDL line", "ENDMDL".ljust(80), False),
+        ("CONECT line", "CONECT  417  418".ljust(80), False),
+        ("blank line", "", False),
+    ]
+    wrong = {}
+    decoded = None
+    model_after = None
+    try:
+        for tag, line, want in classes:
+            ev = BlockEval(repo, P2, {var: line, "records": [], "current_model": 1})
+            # names of the accumulator(s): every local list the body appends to starts empty
+            for c in astq.calls(loop, "append"):
+                if isinstance(c.func.value, ast.Name):
+                    ev.env.setdefault(c.func.value.id, [])
+            ev.run(loop.body)
+            got = [v for k, v in ev.env.items() if isinstance(v, list) and v and isinstance(v[0], dict)]
+            appended = bool(got)
+            if appended != want:
+                wrong[tag] = appended
+            if tag == "ATOM line" and got:
+                decoded = got[0][0]
+            if tag == "MODEL line":
+                model_after = ev.env.get("current_model")
+    except Unknown as ex:
+        chk.error("pdb-record-filter", b.site(loop), f"line loop not evaluable on the representative lines: {ex}")
+        return
+    except Exception as ex:
+        chk.violation("pdb-record-filter", b.site(loop), f"the line loop raises {type(ex).__name__} ({ex}) on a representative line", K(b, "record-filter-raises"))
+        return
+    chk.expect(
+        not wrong,
+        "pdb-record-filter",
+        b.site(loop),
+        f"parser_v2 keeps exactly the lines whose record name (columns 1-6) is ATOM or HETATM ({len(classes)} classes of line evaluated)",
+        "parser_v2 " + "; ".join(f"{'keeps' if v else 'drops'} a {k}" for k, v in wrong.items()) + ": atom lines are lost or foreign lines decoded",
+        K(b, "record-filter"),
+        found=wrong,
+    )
+    chk.expect(model_after == 2, "pdb-record-filter", b.site(loop), "a MODEL line sets the current model from columns 11-14", f"after `MODEL        2` the current model is {model_after!r}", K(b, "model-line"))
+    if decoded is not None:
+        want = {k: v.strip() for k, v in atom_fields.items()}
+        want["record_type"] = "ATOM"
+        bad = {k: (decoded.get(k), v) for k, v in want.items() if str(decoded.get(k)) != v}
+        chk.expect(not bad, "pdb-decode-v2", b.site(loop), "an ATOM line with a distinct value in every field is decoded field for field (serial, name, altLoc, resName, chain, number incl. sign, iCode, x, y, z, occupancy, B, element, charge)", f"fields decoded wrongly from a fully populated ATOM line: { {k: g for k, (g, w) in bad.items()} } (expected { {k: w for k, (g, w) in bad.items()} })", K(b, "decode"), expected={k: w for k, (g, w) in bad.items()}, found={k: g for k, (g, w) in bad.items()})
 
 
 def check_item_preference(chk) -> None:
